@@ -208,12 +208,25 @@ def verdict(chk, results, info, ok_proof, pid="C01", read_kinds=("read",)):
     reported = 0
     corr_only = []
     for name, optname, ops, run in results:
-        first_known = min([e[2] for e in run.known_events if e[0] in known], default=None)
+        kev = [e for e in run.known_events if e[0] in known]
+        first_known = min([e[2] for e in kev], default=None)
+        # the first known event after which the recovered tree was not even well-formed (None: every one was)
+        first_bad = min([e[2] for e in kev if not (len(e) > 3 and e[3])], default=None)
         unlisted = [e for e in run.known_events if e[0] not in known]
-        fresh = [p for p in run.problems if first_known is None or p["at_event"] < first_known]
-        for e in run.known_events:
-            if e[0] in known:
-                chk.known(e[0], known[e[0]])
+
+        def excused(p):
+            """a problem AFTER a known event is attributed to it only if it is a stated consequence of it:
+            tree not well-formed -> anything (binary searches and the selector's asserts are undefined);
+            tree well-formed but wrongly ordered -> only reads on which implementation and MODEL (which runs on the
+            recovered arrangement) agree with each other and differ from the latest write"""
+            if first_known is None or p["at_event"] < first_known:
+                return False
+            if first_bad is not None and p["at_event"] >= first_bad:
+                return True
+            return p["kind"] in read_kinds and p.get("impl") is not None and p.get("impl") == p.get("model")
+        fresh = [p for p in run.problems if not excused(p)]
+        for e in kev:
+            chk.known(e[0], known[e[0]])
         replay = {"history": ops_to_json(ops), "options": optname, "problems": fresh[:10],
                   "known_events": [list(e) for e in run.known_events[:10]], "events_tail": [list(e) for e in run.events[-15:]]}
         reads = [p for p in fresh if p["kind"] in read_kinds or p["kind"] == "error"]
@@ -223,7 +236,7 @@ def verdict(chk, results, info, ok_proof, pid="C01", read_kinds=("read",)):
             reported += 1
         elif fresh:
             corr_only.append((name, replay))
-        elif unlisted and first_known is None:
+        elif [e for e in unlisted if first_known is None or e[2] < first_known]:
             corr_only.append((name, dict(replay, unlisted_event=[list(e) for e in unlisted[:3]])))
     if reported == 0 and (corr_only or not ok_proof):
         chk.violation("%s_unproved.json" % pid.lower(), {"kind": "no-failing-input-found", "broken": info.get("broken", []),
